@@ -40,7 +40,8 @@ rule("C07.ag", "set-ups and reports: " + TXT + " - kept rows / mappings / cost v
      props=["C07", "C04", "C08", "C16", "C14", "C17", "C05", "C06", "C02", "C13", "C10"])
 
 CONTENT_CALLS = {"tobytes", "tostring", "copy", "asarray", "array", "tuple", "str", "repr", "hash", "float", "int", "frozenset", "sorted",
-                 "Timestamp", "to_datetime", "tolist", "item", "lower", "upper", "strip", "to_offset", "Timedelta"}
+                 "Timestamp", "to_datetime", "tolist", "item", "lower", "upper", "strip", "to_offset", "Timedelta",
+                 "toarray", "todense", "to_json", "to_numpy", "to_dict", "tocsr", "tocoo", "dumps", "ravel", "flatten"}
 LOSSY_ATTRS = {"shape", "size", "ndim", "nnz", "dtype", "T", "name"}   # `name` handled separately
 
 
@@ -114,6 +115,8 @@ def _key_atoms(ctx, fn, e, at, depth=0) -> set:
     if isinstance(e, (ast.Attribute, ast.Subscript)):
         if isinstance(e, ast.Attribute) and e.attr in LOSSY_ATTRS and e.attr != "name":
             return set()
+        if isinstance(e, ast.Attribute) and e.attr in ("values", "data", "indices", "indptr") and au.path(e.value):
+            return _key_atoms(ctx, fn, e.value, at, depth + 1) if e.attr == "values" else set()
         pth = au.path(e)
         if pth:
             # a local base bound to a pure path is substituted (I = self.timegrid.restricted.I)
@@ -321,7 +324,7 @@ def run(ctx):
             seen_defs = set()
 
             def sl(e, at, depth=0):
-                if e is None or depth > 14:
+                if e is None or depth > 40:      # (nesting of one expression; definitions are followed once each - seen_defs - from depth 0)
                     return
                 if isinstance(e, ast.Constant):
                     return
@@ -353,11 +356,11 @@ def run(ctx):
                             add("name:" + e.id, e)
                         elif d_.kind in ("assign", "aug", "unpack", "store", "with") and d_.value is not None and id(d_) not in seen_defs:
                             seen_defs.add(id(d_))
-                            sl(d_.value, d_.node, depth + 1)
+                            sl(d_.value, d_.node, 0)
                             for pd_ in d_.prev:
                                 if pd_.value is not None and id(pd_) not in seen_defs:
                                     seen_defs.add(id(pd_))
-                                    sl(pd_.value, pd_.node, depth + 1)
+                                    sl(pd_.value, pd_.node, 0)
                     return
                 if isinstance(e, ast.Call):
                     tg = p.resolve_call(e, fn)
@@ -365,9 +368,13 @@ def run(ctx):
                     if tg and isinstance(e.func, ast.Attribute) and au.path(e.func.value) and au.U(e.func.value) != "self" \
                             and not (isinstance(e.func.value, ast.Call)):
                         r = au.path(e.func.value)
-                        rd = set()
-                        for t in tg:
-                            rd |= reads_of(t, "self")
+                        # receiver of unknown class: what *every* candidate reads (the enclosing method itself is not a candidate: a method that
+                        # calls its own name on the elements of its container delegates to the element class)
+                        cands = [t for t in tg if t is not fn] or tg
+                        rd = None
+                        for t in cands:
+                            rd = reads_of(t, "self") if rd is None else (rd & reads_of(t, "self"))
+                        rd = rd or set()
                         rb = au.base_name(e.func.value)
                         rds = list(flow.defs(rb, at)) if rb else []
                         if rb == "self" or (rds and all(d_.kind in ("param", "for") for d_ in rds)):
